@@ -95,7 +95,7 @@ func diffExec(a, b *Exec) string {
 	}
 	for i := range a.Points {
 		p, q := a.Points[i], b.Points[i]
-		if p.Chosen != q.Chosen || p.Kind != q.Kind || p.Site != q.Site || p.Alts != q.Alts || p.Obj != q.Obj {
+		if p.Chosen != q.Chosen || p.Kind != q.Kind || p.Site != q.Site || p.Alts != q.Alts {
 			return fmt.Sprintf("point %d: %s vs %s", i, p.String(), q.String())
 		}
 	}
